@@ -36,6 +36,7 @@ type Contract struct {
 	Ghost    []*Clause // ghost updates: "ghost at return: x = e" / "ghost at call n: ..."
 	Callback map[string]*Contract
 	PanicsIf *Clause
+	PanicsWhen *Clause // evaluated in the state at the panic site
 	Opts     map[string]string // free options: arith, nopanic, pure, ...
 	Asserts  []*Clause
 	Assumes  []*Clause
@@ -57,6 +58,7 @@ type MonitorSpec struct {
 	Lock    string   // field name of the lock ("Mutex" for embedded)
 	Guards  []string // field names (incl. ghost fields) guarded by it
 	Conds   []string // sync.Cond fields
+	Tokens  []string // thread-held ghost tokens (shared count tok_<name> + per-thread count)
 	Inv     []*Clause
 	Level   int
 	Atomic  bool
@@ -117,7 +119,7 @@ func (ss *SpecSet) LoadFile(path, pkgPath string, trusted bool) error {
 }
 
 var clauseKW = map[string]bool{"requires": true, "ensures": true, "modifies": true, "instantiate": true, "loop": true,
-	"ghost": true, "callback": true, "panics-iff": true, "invariant": true, "opt": true, "monitor": true, "assert": true,
+	"ghost": true, "callback": true, "panics-iff": true, "panics-when": true, "invariant": true, "opt": true, "monitor": true, "assert": true,
 	"func": true, "assume-func": true, "type": true, "assumes": true, "global-invariant": true, "axiom": true, "specfun": true, "global": true, "sentinel": true, "package": true, "end": true}
 
 func (ss *SpecSet) parse(src, file, pkgPath string, trusted bool) error {
@@ -240,19 +242,33 @@ func (ss *SpecSet) parse(src, file, pkgPath string, trusted bool) error {
 					i += 2
 				case "guards":
 					i++
-					for i < len(f) && f[i] != "cond" && f[i] != "level" {
+					for i < len(f) && f[i] != "cond" && f[i] != "level" && f[i] != "tokens" {
 						m.Guards = append(m.Guards, f[i])
 						i++
 					}
 				case "cond":
 					i++
-					for i < len(f) && f[i] != "guards" && f[i] != "level" {
+					for i < len(f) && f[i] != "guards" && f[i] != "level" && f[i] != "tokens" {
 						m.Conds = append(m.Conds, f[i])
+						i++
+					}
+				case "tokens":
+					i++
+					for i < len(f) && f[i] != "guards" && f[i] != "level" && f[i] != "cond" {
+						m.Tokens = append(m.Tokens, f[i])
 						i++
 					}
 				default:
 					return fmt.Errorf("%s:%d: bad monitor clause %q", file, l.no, f[i])
 				}
+			}
+			for _, cf := range m.Conds {
+				curT.GhostField["sleep_"+cf] = "Int"
+				curT.GhostField["owed_"+cf] = "Int"
+				curT.GhostField["wake_"+cf] = "Int"
+			}
+			for _, tk := range m.Tokens {
+				curT.GhostField["tok_"+tk] = "Int"
 			}
 			curT.Monitors = append(curT.Monitors, m)
 			curM = m
@@ -379,6 +395,12 @@ func (ss *SpecSet) parse(src, file, pkgPath string, trusted bool) error {
 					return err
 				}
 				tgt.PanicsIf = cl
+			case "panics-when":
+				cl, err := mk(kw, "", rest, l.no)
+				if err != nil {
+					return err
+				}
+				tgt.PanicsWhen = cl
 			case "modifies":
 				for _, item := range splitTop(rest) {
 					cl, err := mk("modifies", "", item, l.no)
